@@ -67,6 +67,7 @@ func (a *algo) violate(s string) { a.Violations = append(a.Violations, s) }
 func (a *algo) newID() int { a.insts++; return a.insts }
 
 type simCompressor struct {
+	pooled bool // lying in the library's pool (set by the pool hooks)
 	a      *algo
 	id     int
 	w      io.Writer
@@ -83,6 +84,9 @@ func (c *simCompressor) Reset(w io.Writer) {
 }
 
 func (c *simCompressor) Write(p []byte) (int, error) {
+	if c.pooled {
+		c.a.violate(fmt.Sprintf("compressor %s#%d written to after it was returned to the pool", c.a.name, c.id))
+	}
 	if !c.reset {
 		c.a.violate(fmt.Sprintf("compressor %s#%d written without Reset", c.a.name, c.id))
 	}
@@ -129,6 +133,7 @@ func fnv32(b []byte) uint32 {
 }
 
 type simDecompressor struct {
+	pooled  bool // lying in the library's pool (set by the pool hooks)
 	a       *algo
 	id      int
 	r       *bufio.Reader
@@ -176,6 +181,9 @@ func (d *simDecompressor) Reset(r io.Reader) error {
 }
 
 func (d *simDecompressor) Read(p []byte) (int, error) {
+	if d.pooled {
+		d.a.violate(fmt.Sprintf("decompressor %s#%d read from after it was returned to the pool (the next call to take it would share it)", d.a.name, d.id))
+	}
 	if !d.reset {
 		d.a.violate(fmt.Sprintf("decompressor %s#%d read without Reset", d.a.name, d.id))
 	}
